@@ -14,8 +14,41 @@ def guard(f):
     except Exception as e: return {"err": type(e).__name__}
 
 
+_shimmed = False
+
+
+def _shim_deepcopy():
+    """Observation aid (this process only, nothing in the repository changes): `_close_table_cell` duplicates merged
+    cells with `copy.deepcopy`; the copy of a paragraph that has no element (an implicit paragraph for inline content
+    outside every w:p) cannot be told from the original by its content, so every Par that leaves a deepcopy made by
+    docx_text is marked. Copies of ordinary paragraphs are recognised without the mark too (their element is a copy)."""
+    global _shimmed
+    if _shimmed: return
+    _shimmed = True
+    try:
+        import copy as _copy
+        from docx2python import docx_text
+        from docx2python.depth_collector import Par
+
+        def mark(x):
+            if isinstance(x, list):
+                for y in x: mark(y)
+            elif isinstance(x, Par):
+                try: x._verif_copy = True
+                except Exception: pass
+
+        class Shim:
+            def __getattr__(self, n): return getattr(_copy, n)
+            def deepcopy(self, x, memo=None):
+                y = _copy.deepcopy(x, memo); mark(y); return y
+        if getattr(docx_text, 'copy', None) is _copy: docx_text.copy = Shim()
+    except Exception:
+        pass
+
+
 def par_json_factory(rd):
     from docx2python.depth_collector import Par
+    _shim_deepcopy()
     ords = {}
     try:
         for f in rd.files_of_type():
@@ -25,9 +58,9 @@ def par_json_factory(rd):
 
     def pj(p):
         if not isinstance(p, Par): return {"?": type(p).__name__}
-        cp = (p.elem is not None and p.elem not in ords) or (p.elem is None and p.lineage[1] == "")
+        cp = (p.elem is not None and p.elem not in ords) or (p.elem is None and p.lineage[1] == "") or getattr(p, '_verif_copy', False) is True
         return {"runs": p.run_strings, "lin": list(p.lineage), "style": p.style, "lp": [p.list_position[0], list(p.list_position[1])],
-                "elem": None if (cp or p.elem is None) else list(ords[p.elem]), "copy": cp,
+                "elem": None if (cp or p.elem is None) else list(ords[p.elem]), "copy": cp, "anon": p.elem is None,
                 "hs": list(p.html_style), "rs": [[list(r.html_style), r.text] for r in p.runs]}
     return pj
 
@@ -42,6 +75,7 @@ def strleaf(s): return s if isinstance(s, str) else {"?": type(s).__name__}
 
 def observe(data: bytes, html: bool, dup: bool, want=None):
     from docx2python import docx2python
+    _shim_deepcopy()
     out = {}
     W = set(want or ["pars", "runs", "plain", "text", "comments", "images", "core", "files"])
     with warnings.catch_warnings():
